@@ -41,6 +41,19 @@ func OwnershipDataToVoteData(chainId, contractAddr, tokenId, ownerAddr string) [
 	}
 }
 
+// IsSlashWindowClosing reports, at a tally height, whether a slash window ended since the previous
+// tally. Windows end at the positive multiples of slashWindow; tallies happen every 2*votePeriod
+// blocks, at heights that are never such a multiple when votePeriod > 1, so the window has to be
+// closed at the first tally at or after its last block.
+func IsSlashWindowClosing(blockHeight int64, votePeriod uint64, slashWindow uint64) bool {
+	if slashWindow == 0 || blockHeight < 0 {
+		return false
+	}
+
+	height := uint64(blockHeight)
+	return height >= slashWindow && height%slashWindow < votePeriod*2
+}
+
 // IsLastBlockOfSlashWindow returns true if we are at the last block of the slash slashWindow
 func IsLastBlockOfSlashWindow(ctx sdk.Context, slashWindow uint64) bool {
 	if slashWindow == 0 {
